@@ -630,3 +630,30 @@ Proof.
   intros c name unit cnt r H. cbv zeta.
   split; [eapply name_prefix; eauto|]. split; [eapply name_tail; eauto | eapply name_exact; eauto].
 Qed.
+
+(** * Exponential histograms *)
+Lemma expo_buckets_expected counts : forall offset, expo_buckets offset counts = expo_expected offset counts.
+Proof.
+  unfold expo_expected. induction counts as [|c r IH]; intros offset; [reflexivity|].
+  cbn [expo_buckets length seq map combine]. f_equal.
+  - f_equal. lia.
+  - rewrite IH. f_equal. rewrite <- seq_shift, map_map. apply map_ext. intros i. lia.
+Qed.
+
+Lemma expo_buckets_nth counts : forall offset i,
+  (i < length counts)%nat ->
+  nth i (expo_buckets offset counts) (0%Z, 0) = ((offset + 1 + Z.of_nat i)%Z, nth i counts 0).
+Proof.
+  induction counts as [|c r IH]; intros offset i Hi; [cbn in Hi; lia|].
+  destruct i as [|i]; cbn [expo_buckets nth].
+  - f_equal. lia.
+  - rewrite IH by (cbn in Hi; lia). f_equal. lia.
+Qed.
+
+Lemma expo_side_model offset counts : expo_side_ok offset counts (expo_buckets offset counts) = true.
+Proof.
+  unfold expo_side_ok. rewrite expo_buckets_expected. apply list_eqb_eq; [|reflexivity].
+  intros [a b] [c d]. unfold bucket_eqb. cbn. rewrite andb_true_iff, Z.eqb_eq, N.eqb_eq. split.
+  - intros [-> ->]. reflexivity.
+  - intros H. inversion H. auto.
+Qed.
